@@ -180,7 +180,7 @@ def aff_key(cond):
     f = T.to_aff(cond[2])
     if f is None:
         return None
-    return (cond[1], frozenset((T.show(a), c) for a, c in f[0].items()),
+    return (cond[1], frozenset((show0(a), c) for a, c in f[0].items()),
             f[1])
 
 
@@ -196,3 +196,59 @@ def mk_aff_key(op, atoms, k=0):
 def assume_keys(path, upto=None):
     evs = path.events if upto is None else path.events[:upto]
     return [aff_key(e.cond) for e in evs if e.kind == 'assume']
+
+
+def store_base_attr(ev):
+    """For a 'store'/'del' event: the attribute name of the subscripted
+    container as written in the source (self.X[k] = v -> 'X'), else None."""
+    n = ev.node
+    tgts = []
+    if isinstance(n, ast.Assign):
+        tgts = n.targets
+    elif isinstance(n, (ast.AugAssign, ast.AnnAssign)):
+        tgts = [n.target]
+    elif isinstance(n, ast.Delete):
+        tgts = n.targets
+    for t in tgts:
+        if isinstance(t, ast.Subscript) and \
+                isinstance(t.value, ast.Attribute):
+            return t.value.attr
+    return None
+
+
+def is_field_of_self_attr(path, term, owner, attr):
+    """term is self.<owner>.<attr>, where self.<owner> may have been assigned
+    earlier on the same path (then the read returns the assigned object)."""
+    if term is None or term[0] != 'a' or term[2] != attr:
+        return False
+    b = term[1]
+    if attr_chain(b) == 'self.' + owner:
+        return True
+    for e in path.events:
+        if e.kind == 'write' and e.attr == owner and e.base == ('p', 'self') \
+                and e.value == b:
+            return True
+    return False
+
+
+def aff_of(term):
+    """Order-independent form of an integer term:
+    (frozenset((show(atom), coef)), const) or None."""
+    if term is None:
+        return None
+    f = T.to_aff(term)
+    if f is None:
+        return None
+    return (frozenset((show0(a), c) for a, c in f[0].items()), f[1])
+
+
+def aff_is(term, atoms, k=0):
+    return aff_of(term) == (frozenset(atoms.items()), k)
+
+
+_VER = __import__('re').compile(r'@\d+')
+
+
+def show0(term):
+    """T.show without the version stamps of attribute reads."""
+    return _VER.sub('', T.show(term))
